@@ -147,7 +147,7 @@ type layout struct {
 var (
 	sepPlain    = []string{" "}
 	sepVaried   = []string{" ", "\t", "\n", "\r\n", "  ", "\n\n", " \t "}
-	sepComments = []string{" /* c */ ", " // c\n", "/**/", "\n// x y z\n", " /* a\n b */\n", "/* ** */", "\t//\t\"q\n", "/*/ note */", "/*//////*/", "/*/*/", "/*/ | \"(\" x \")\" /*/", "/***/", "/*\n*/"}
+	sepComments = []string{" /* c */ ", " // c\n", "/**/", "\n// x y z\n", " /* a\n b */\n", "/* ** */", "\t//\t\"q\n", "/*/ note */", "/*//////*/", "/*/*/", "/*/ | \"(\" x \")\" /*/", "/***/", "/*\n*/", "/* \\*\\* */", "/**\\**/", "/* *\\/ x */", "/*\\*/"}
 )
 
 func layoutTokens(toks []gtok, r *rng, l layout) string {
